@@ -434,6 +434,8 @@ def handleProgram (j : Json) : Except String Verdict := do
     (if fIntD j "repeat" 1 == 2 then ["applied-twice"] else []) ++ (if fIntD j "pre" 0 == 1 then ["operands-reused-across-sessions"] else []) ++
     (if fIntD j "inside" 0 == 1 then ["built-inside-bracket"] else []) ++ (if fIntD j "bare" 0 == 1 then ["unowned-fiber-operand"] else []) ++
     (if c15_getN wrap "update" > 0 then ["effectual"] else []) ++ (if onErr then ["aborts"] else []) ++ (if offErr then ["fails-off-too"] else []) ++
+    (if ranks.any (fun v => c15_getN bodies v > 0) then ["ran-bodies"] else []) ++
+    (if fStrD j "kind" "" == "assign" then [if fIntD j "dflt" 0 == 0 then "default-0" else "default-nonzero"] else []) ++
     (if fStrD j "kind" "" == "chunked" then [s!"first-pos-{fIntD j "first_pos" (-1)}"] else []) ++
     (if traces.isEmpty then ["traces-none"] else [])
   pure { agree := true, spec, tags, why }
@@ -446,6 +448,7 @@ def handleC15 (j : Json) : Except String Verdict := do
   | "kernel" => C15.handleKernel j
   | "program" => C15.handleProgram j
   | "chunked" => C15.handleProgram j
+  | "assign" => C15.handleProgram j
   | k => throw s!"C15: unknown kind {k}"
 
 end FtDriver
